@@ -1143,3 +1143,198 @@ def mutate(rng, text):
             i, j = min(i, j), max(i, j)
             b[i:i] = b[i:j][:40]
     return bytes(b)
+
+
+# --------------------------------------------------------------------------------------------------
+# semantic faults: programs Frugal.validate must reject (the checks added by the repository's repairs
+# "validate that an extended service exists and that extends chains are not circular", "reject a throws
+# clause whose type is not an exception", "reject duplicate field names, and duplicate ids among the
+# exceptions of a method", "validation rejects a scope prefix that names the same variable twice", and
+# the older duplicate-id checks).  A fault is injected into an otherwise valid model, which is then
+# rendered like any other, so the invalid construct appears in every lexical style.
+
+FAULTS = ["dangling_extends", "dangling_extends_include", "circular_extends", "throws_non_exception",
+          "throws_container", "throws_alias_non_exception", "dup_field_name", "dup_arg_name", "dup_throws_name",
+          "dup_throws_id", "dup_arg_id", "dup_field_id", "dup_prefix_var"]
+
+# what the diagnostic of the rejected file must contain (the include chain prefixes "Include x: ")
+FAULT_MSG = {
+    "dangling_extends": r"Invalid extends \S+ for service \S+",
+    "dangling_extends_include": r"Invalid extends \S+ for service \S+",
+    "circular_extends": r"Circular extends \S+",
+    "throws_non_exception": r"Invalid exception type \S+ for \S+: not an exception",
+    "throws_container": r"Invalid exception type \S+ for \S+: not an exception",
+    "throws_alias_non_exception": r"Invalid exception type \S+ for \S+: not an exception",
+    "dup_field_name": r"Duplicate field name \S+ in struct \S+",
+    "dup_arg_name": r"Duplicate field name \S+ in method \S+",
+    "dup_throws_name": r"Duplicate field name \S+ in method \S+",
+    "dup_throws_id": r"Duplicate field id -?\d+ in method \S+",
+    "dup_arg_id": r"Duplicate field id -?\d+ in method \S+",
+    "dup_field_id": r"Duplicate field id -?\d+ in struct \S+",
+    "dup_prefix_var": r"Duplicate prefix variable \S+ in scope \S+",
+}
+
+
+def _decls_of(m, *kinds):
+    return [d for k, d in m["decls"] if k in kinds]
+
+
+def _new_decl(gen, m, kind, **kw):
+    nm = gen.type_name() if kind in ("struct", "exception", "union", "typedef", "enum") else gen.ident()
+    d = dict({"doc": None, "name": nm, "anns": []}, **kw)
+    # after the includes and namespaces (the renderer emits declarations in model order)
+    m["decls"].append((kind, d))
+    if kind in ("struct", "exception", "union", "typedef", "enum"):
+        m.setdefault("local_types", []).append(nm)
+    if kind == "exception":
+        m.setdefault("local_exceptions", []).append(nm)
+    if kind == "service":
+        m.setdefault("local_services", []).append(nm)
+    return d
+
+
+def _method(gen, throws=None, args=None):
+    mn = gen.ident()
+    return {"doc": None, "name": mn, "oneway": False, "ret": None, "args": args or [], "throws": throws, "anns": []}
+
+
+def _a_method(gen, rng, m, want=None):
+    """a two-way method of the model (one satisfying [want] if there is any), or a new one in a new service"""
+    cands = [(s, me) for s in _decls_of(m, "service") for me in s["methods"] if not me["oneway"]]
+    good = [c for c in cands if want is None or want(c[1])]
+    if good and rng.random() < 0.8:
+        return rng.choice(good)[1]
+    svcs = _decls_of(m, "service")
+    me = _method(gen)
+    if svcs and rng.random() < 0.5:
+        rng.choice(svcs)["methods"].append(me)
+    else:
+        _new_decl(gen, m, "service", extends=None, methods=[me])
+    return me
+
+
+def _an_exception(gen, rng, m):
+    xs = [d["name"] for d in _decls_of(m, "exception")]
+    if xs and rng.random() < 0.8:
+        return rng.choice(xs)
+    return _new_decl(gen, m, "exception", fields=[])["name"]
+
+
+def inject_fault(gen, m, kind):
+    """make the valid model [m] invalid in exactly the way [kind] names (in place); returns the name of the
+    construct that was touched (for the replay record)"""
+    rng = gen.rng
+    fresh = lambda: gen.ident()
+    if kind in ("dangling_extends", "dangling_extends_include"):
+        svcs = _decls_of(m, "service")
+        s = rng.choice(svcs) if svcs and rng.random() < 0.7 else _new_decl(gen, m, "service", extends=None, methods=[])
+        incs = [include_name(d["value"]) for d in _decls_of(m, "include")]
+        if kind == "dangling_extends":
+            # no such service in this file (a struct's name is not a service either)
+            others = [d["name"] for d in _decls_of(m, "struct", "exception", "union", "enum", "typedef")]
+            s["extends"] = rng.choice(others) if others and rng.random() < 0.3 else fresh()
+        elif incs and rng.random() < 0.7:
+            s["extends"] = rng.choice(incs) + b"." + fresh()          # the include has no such service
+        else:
+            s["extends"] = fresh() + b"." + fresh()                   # no such include
+        return s["name"]
+    if kind == "circular_extends":
+        svcs = _decls_of(m, "service")
+        n = rng.choice([1, 2, 2, 3])
+        while len(svcs) < n:
+            svcs.append(_new_decl(gen, m, "service", extends=None, methods=[]))
+        ring = rng.sample(svcs, n)
+        for a, b in zip(ring, ring[1:] + ring[:1]):
+            a["extends"] = b["name"]
+        # a service outside the ring may lead into it: its walk meets the cycle as well
+        rest = [s for s in svcs if s not in ring and not s["extends"]]
+        if rest and rng.random() < 0.5:
+            rng.choice(rest)["extends"] = ring[0]["name"]
+        return ring[0]["name"]
+    if kind in ("throws_non_exception", "throws_container", "throws_alias_non_exception"):
+        me = _a_method(gen, rng, m)
+        xs = {d["name"] for d in _decls_of(m, "exception")}
+        if kind == "throws_non_exception":
+            pool = [d["name"] for d in _decls_of(m, "struct", "union", "enum")] + list(BASE_TYPES)
+            if rng.random() < 0.3:
+                pool = [_new_decl(gen, m, rng.choice(["struct", "union"]), fields=[])["name"]]
+            t = _t(rng.choice(pool))
+        elif kind == "throws_container":
+            x = _an_exception(gen, rng, m)
+            c = rng.choice([b"list", b"set", b"map"])
+            t = {"name": c, "key": _t(b"string") if c == b"map" else None, "val": _t(x), "anns": []}
+        else:
+            target = rng.choice([d["name"] for d in _decls_of(m, "struct", "union", "enum")] + list(BASE_TYPES))
+            td = _new_decl(gen, m, "typedef", type=_t(target))
+            if rng.random() < 0.4:
+                td = _new_decl(gen, m, "typedef", type=_t(td["name"]))     # a chain of two aliases
+            t = _t(td["name"])
+        good = [f for f in (me["throws"] or [])]
+        ids = {f["id"] for f in good}
+        i = next(k for k in range(1, 100) if k not in ids)
+        bad = _fld(i, fresh(), t, mod=rng.choice([0, 1, 2]))
+        gen.used.discard(bad["name"])
+        me["throws"] = good + [bad]
+        rng.shuffle(me["throws"])
+        return me["name"]
+    if kind in ("dup_field_name", "dup_field_id"):
+        sts = [d for d in _decls_of(m, "struct", "exception", "union") if len(d["fields"]) >= 2]
+        if sts and rng.random() < 0.8:
+            d = rng.choice(sts)
+        else:
+            d = _new_decl(gen, m, rng.choice(["struct", "exception", "union"]),
+                          fields=[_fld(1, b"first", _t(b"i32")), _fld(2, b"second", _t(b"string")),
+                                  _fld(3, b"third", _t(b"bool"))][:rng.choice([2, 3])])
+        a, b = rng.sample(range(len(d["fields"])), 2)
+        key = "name" if kind == "dup_field_name" else "id"
+        d["fields"][b] = dict(d["fields"][b], **{key: d["fields"][a][key], "id_plus": False})
+        return d["name"]
+    if kind in ("dup_arg_name", "dup_arg_id", "dup_throws_name", "dup_throws_id"):
+        which = "args" if "arg" in kind else "throws"
+        me = _a_method(gen, rng, m, want=lambda me: len(me[which] or []) >= 2)
+        fs = list(me[which] or [])
+        while len(fs) < 2:
+            ids = {f["id"] for f in fs}
+            i = next(k for k in range(1, 100) if k not in ids)
+            nm = fresh()
+            gen.used.discard(nm)
+            while nm in {f["name"] for f in fs}:
+                nm = nm + b"x"
+            fs.append(_fld(i, nm, _t(_an_exception(gen, rng, m)) if which == "throws" else _t(b"i32"),
+                           mod=rng.choice([0, 1, 2])))
+        a, b = rng.sample(range(len(fs)), 2)
+        key = "name" if kind.endswith("name") else "id"
+        fs[b] = dict(fs[b], **{key: fs[a][key], "id_plus": False})
+        me[which] = fs
+        return me["name"]
+    if kind == "dup_prefix_var":
+        scs = _decls_of(m, "scope")
+        if scs and rng.random() < 0.7:
+            sc = rng.choice(scs)
+        else:
+            sc = _new_decl(gen, m, "scope", prefix=None, vars=[], ops=[])
+        v = rng.choice(sc["vars"]) if sc["vars"] else b"zone"
+        toks = sc["prefix"].split(b".") if sc["prefix"] else []
+        if not sc["vars"]:
+            toks.insert(rng.randrange(len(toks) + 1), b"{" + v + b"}")
+        toks.insert(rng.randrange(len(toks) + 1), b"{" + v + b"}")
+        sc["prefix"] = b".".join(toks)
+        sc["vars"] = [t[1:-1] for t in toks if t.startswith(b"{") and t.endswith(b"}")]
+        return sc["name"]
+    raise ValueError(kind)
+
+
+def alias_throws(gen, m):
+    """valid neighbour of [throws_alias_non_exception]: a method throws an exception through a typedef (isException
+    looks at the underlying type); returns whether the model changed"""
+    rng = gen.rng
+    cands = [(me, f) for s in _decls_of(m, "service") for me in s["methods"] for f in (me["throws"] or [])
+             if f["type"]["name"] in {d["name"] for d in _decls_of(m, "exception")}]
+    if not cands:
+        return False
+    me, f = rng.choice(cands)
+    td = _new_decl(gen, m, "typedef", type=_t(f["type"]["name"]))
+    if rng.random() < 0.3:
+        td = _new_decl(gen, m, "typedef", type=_t(td["name"]))
+    f["type"] = _t(td["name"])
+    return True
